@@ -192,12 +192,20 @@ def procTriggered (s : Sys) (pid : Nat) : Bool :=
   | some p => !p.alive
   | none => false
 
+/-- `env.now >= task.aft` (`aft` is -1 until the body stamps it) -/
+def aftReached (s : Sys) (now : Time) (t : Tid) : Bool :=
+  match s.task? t with
+  | some r => (match r.aft with | some f => decide (f ≤ now) | none => true)
+  | none => true
+
 def allocTaskBlock (s : Sys) (now : Time) (t : Tid) (m : Mid) (preds : List Tid)
     (obs : Option Oid) (ing : Bool) (ret : Nat) : Sys × PK × Yield :=
   let k := PK.allocTask t m preds obs ing ret
   let finish (s : Sys) (ret : Nat) : Sys × PK × Yield :=
     let k := PK.allocTask t m preds obs ing ret
-    if s.procTriggered ret then
+    -- F13: the machine stays with the task until the finish time the body recorded (`now ≥ task.aft`;
+    -- a body that raised before stamping leaves `aft` unset, Python's -1)
+    if s.procTriggered ret && s.aftReached now t then
       match s.cl.allocEnd t m obs ing with
       | (cl1, some e) => ({ s with cl := cl1 }, k, .raised e)
       | (cl1, none) =>
